@@ -848,7 +848,8 @@ func c18Probe(a lib.Args, res *lib.Result) error {
 			if strings.HasPrefix(loc, "body:") || loc == "p:bucket" || loc == "p:key" {
 				// body members and path components are not individually in the model's request map
 				// unless the method is struct-typed: judge by the table criterion
-				ok := !facts.lossy[p.m+"."+e.a]
+				// (a field the table does not certify but Model/Proxy.lean argues harmless must arrive)
+				ok := !facts.lossy[p.m+"."+e.a] || facts.argued[p.m+"."+e.a]
 				if ok != arrived {
 					res.Fail(lib.Failure{Kind: "correspondence", Signature: class, What: fmt.Sprintf("table says preserved=%v, the endpoint saw it=%v", ok, arrived),
 						Input: map[string]interface{}{"family": "probe", "method": p.m, "field": e.a, "edge": p.edge, "sent": sent}, Impl: got, Model: fmt.Sprint(ok)})
